@@ -50,6 +50,7 @@ func cmdVerify(args []string) int {
 	verbose := fs.Bool("v", false, "print every obligation")
 	dump := fs.String("dump", "", "directory for failed queries")
 	thorough := fs.Bool("thorough", false, "all solvers, agreement check")
+	only := fs.String("only", "", "solve only the obligations whose name contains this text")
 	fs.Parse(args)
 	rest := fs.Args()
 	if len(rest) < 2 {
@@ -76,6 +77,9 @@ func cmdVerify(args []string) int {
 		gen := time.Since(t0)
 		var ps []*sym.Prepared
 		for _, o := range rep.Obligations {
+			if *only != "" && !strings.Contains(o.Name, *only) {
+				continue
+			}
 			ps = append(ps, x.Prepare(o))
 		}
 		outs := sym.SolveAll(ps, time.Duration(*tmo*float64(time.Second)), *thorough, runtime.NumCPU()/2)
